@@ -34,6 +34,12 @@
 (*            att, quote).  The documented lists are <<ui, signer>> and    *)
 (*            <<quote>>; anything else may be listed as well, before or    *)
 (*            after, more than once.  ui/pow `exists` = is it listed.      *)
+(*            sgx also: mid = an X.509 element strictly between ca and qe.  *)
+(*   plen     sgx: the number of elements on the certification path of the *)
+(*            quote (X.509 elements + attestation key + quote; 3..5 in a   *)
+(*            production file, hundreds at scale); ledger (fixed shape):   *)
+(*            the number of unrelated extra elements the file carries.     *)
+(*            Never part of the condition: a longer file changes nothing.  *)
 (*   brk      the elements that do NOT verify under their certifier (one   *)
 (*            real corruption each).  ui/pow `chain` = "broken" iff some   *)
 (*            element on the way from the root to that target is in brk.   *)
@@ -124,7 +130,7 @@ OkCondition(inp) == IF inp.plat = "ledger" THEN OkLedger(inp) ELSE OkSgx(inp)
 (***************************************************************************)
 Range(q) == {q[i] : i \in DOMAIN q}
 LedgerOrder == <<"device", "attestation", "ui", "signer">>
-SgxOrder    == <<"ca", "qe", "att", "quote">>
+SgxOrder    == <<"ca", "mid", "qe", "att", "quote">>
 PathOf(inp, n) ==
     IF inp.plat = "ledger"
     THEN CASE n = "device"      -> {"device"}
@@ -133,9 +139,10 @@ PathOf(inp, n) ==
            [] n = "signer"      -> {"device", "attestation", "signer"}
            [] OTHER             -> {}
     ELSE CASE n = "ca"    -> {"ca"}
-           [] n = "qe"    -> {"ca", "qe"}
-           [] n = "att"   -> {"ca", "qe", "att"}
-           [] n = "quote" -> {"ca", "qe", "att", "quote"}
+           [] n = "mid"   -> {"ca", "mid"}
+           [] n = "qe"    -> {"ca", "mid", "qe"}
+           [] n = "att"   -> {"ca", "mid", "qe", "att"}
+           [] n = "quote" -> {"ca", "mid", "qe", "att", "quote"}
            [] OTHER       -> {}
 TargetValid(inp, n) == /\ inp.root = "right" /\ PathOf(inp, n) # {}
                        /\ PathOf(inp, n) \cap Range(inp.brk) = {}
@@ -291,6 +298,8 @@ Consistent(inp, s, k33) ==
     /\ inp.plat = "ledger" => /\ inp.ui.exists = Listed(inp, "ui") /\ inp.pow.exists = Listed(inp, "signer")
                               /\ inp.ui.chain = ChainOf(inp, "ui") /\ inp.pow.chain = ChainOf(inp, "signer")
     /\ inp.plat = "sgx" => inp.pow.exists = Listed(inp, "quote") /\ inp.pow.chain = ChainOf(inp, "quote")
+    /\ inp.plat = "sgx" => inp.plen >= (IF "mid" \in Range(inp.targets) \cup Range(inp.brk) THEN 5 ELSE 3)
+    /\ inp.plat = "ledger" => inp.plen >= 0
     /\ inp.pow.hdr \in {"current", "legacy", "foreign", "sep", "sepleg"}
     /\ ExtIs(inp.pow, s.pow, PowFormatLen(inp.pow.hdr))
     /\ LET c == Core(inp.pow, s.pow) IN
